@@ -39,6 +39,7 @@ class Profile:
         self.staggered_start = kw.get('staggered_start', True)
         self.eph_kinds = kw.get('eph_kinds', (1, 2))
         self.poll_choices = kw.get('poll_choices', (100, 20, 50, 250))
+        self.api_consumers = kw.get('api_consumers', False)
 
 
 def _g(ch, n):
@@ -67,7 +68,10 @@ def gen_img(ch, prof):
         return None
     mode = ch.pick('gen', ['raw', 'jpg', 'ro'])
     fmt = ch.pick('gen', ['BGR', 'RGB', 'GRAY'])
-    return {'mode': mode, 'fmt': fmt, 'h': ch.rng_int('gen', 1, 6), 'w': ch.rng_int('gen', 1, 8)}
+    img = {'mode': mode, 'fmt': fmt, 'h': ch.rng_int('gen', 1, 6), 'w': ch.rng_int('gen', 1, 8)}
+    if mode != 'jpg' and _chance(ch, 1, 3):
+        img['layout'] = ch.pick('gen', ['fortran', 'strided', 'flipped'])      # same pixels, other memory layout
+    return img
 
 
 def gen_outs(ch, prof, base, img=None, allow_extra=True):
@@ -139,6 +143,8 @@ def gen_behaviour(ch, prof, spec, *, may_skip, is_src=False):
         spec['proc_ns'] = gen_proc_pattern(ch, prof)
     if _chance(ch, 1, 4):
         spec['outputs_jpg'] = ch.pick('gen', [True, False])
+    if any(isinstance(o.get('img'), dict) and o['img'].get('layout') for o in spec.get('out') or []) and _chance(ch, 2, 3):
+        spec['outputs_jpg'] = False          # odd memory layouts matter when the raw pixels go on the wire
     if prof.hidden_sys and _chance(ch, 1, 4):
         spec['outputs_filter'] = True
     if prof.hidden_sys and _chance(ch, 1, 6):
@@ -388,6 +394,14 @@ def gen_scenario(ch, prof):
                 else:
                     nodes[n]['sources'].append(entry)
 
+    # some sinks use the MQ API directly with long (or no) receive time-outs instead of Filter.loop_once's polling
+    if prof.api_consumers:
+        for nid in order:
+            sp = nodes[nid]
+            if not sp.get('has_output', True) and sp.get('sources') and not sp.get('sources_balance') and _chance(ch, 1, 5):
+                sp['api'] = True
+                sp['api_timeout_ms'] = ch.pick('gen', [None, 1000, 5000, 300])
+
     if prof.staggered_start and _chance(ch, 1, 3):
         for nid in order:
             if _chance(ch, 1, 2):
@@ -455,6 +469,11 @@ def gen_faults(ch, prof, sc):
         elif kind == 'stop':
             node = ch.pick('fault', order)
             out.append({'kind': 'stop', 'node': node, 'at_ns': at, 'plus_steps': plus})
+        elif kind == 'restart_graceful':
+            # clean shutdown (CLOSE / exit messages are sent) and a new incarnation on the same address
+            node = ch.pick('fault', order)
+            out.append({'kind': 'stop', 'node': node, 'at_ns': at, 'plus_steps': plus,
+                        'restart_after_ns': ch.pick('fault', [0, 30, 300, 2000]) * MS})
     return out
 
 
